@@ -137,12 +137,15 @@ def handler : Handler := fun op inp out =>
         (model, check (baseClauses g ++ hypBase s ++ hypTables s gd ++
           (cgs.flatMap fun cg => connectedCoveringClauses g cg ++
             [("at-most-k-sheets", match sheets g cg with | some j => j ≤ k | none => false)]) ++
-          [ ("pairwise-non-isomorphic-as-covers", pairwiseNonIsomorphic g cgs) ] ++
+          [ ("pairwise-non-isomorphic-as-covers", nonIsomorphicOver g cgs) ] ++
           (if cnt == 1 then
             [("one-cover-per-conjugacy-class-of-subgroups-of-index-at-most-k", countsAgree g k cgs)]
            else [])))
       | none => (model, fail "no-covers-returned")
     | none => bad
+  | "covers_skipped" =>
+    -- the library returned more covers than the harness' cap: nothing is claimed for this case
+    ("-", ok)
   | "subgroup" | "universal" =>
     match run (do let s ← P.rawSym; let _subs ← P.intss; let gd ← P.groupData; pure (s, gd)) inp with
     | some (s, gd) =>
